@@ -3,6 +3,7 @@
 Importance nested sampler.
 """
 import datetime
+import inspect
 import logging
 import os
 from typing import Any, Callable, List, Literal, Optional, Union
@@ -754,6 +755,18 @@ class ImportanceNestedSampler(BaseNestedSampler):
             )
         if self.max_samples is not None and self.max_samples < self.nlive:
             raise ValueError("`max_samples` must be greater than `nlive`")
+        threshold_func = getattr(
+            self, f"determine_threshold_{self.threshold_method}"
+        )
+        allowed_kwargs = set(inspect.signature(threshold_func).parameters)
+        allowed_kwargs.discard("samples")
+        unknown_kwargs = set(self.threshold_kwargs) - allowed_kwargs
+        if unknown_kwargs:
+            raise ValueError(
+                f"Unknown threshold_kwargs: {sorted(unknown_kwargs)}. "
+                f"Method '{self.threshold_method}' accepts: "
+                f"{sorted(allowed_kwargs)}."
+            )
         logger.debug("Sampler configuration is valid")
         return True
 
